@@ -154,7 +154,7 @@ func ruleFuncValuesOfCorrectType(observers *Events, addError AddErrFunc, disable
 						}
 
 						isVariable := fieldValue.Kind == ast.Variable
-						if isVariable {
+						if isVariable && fieldValue.VariableDefinition != nil {
 							variableName := fieldValue.VariableDefinition.Variable
 							isNullableVariable := !fieldValue.VariableDefinition.Type.NonNull
 							if isNullableVariable {
